@@ -62,6 +62,53 @@ def eval_pred(e, ch, var):
     raise _Unknown(norm(e))
 
 
+def naming_role(P, role):
+    """the helper of the EDIF naming code that plays `role`, by its name when it still has it, otherwise by what it does (a private
+    helper may be renamed; the public entry points make_valid / is_valid_identifier / is_name_valid may not):
+      chars_good   the validity predicate over the characters      chars_fix   the repair that prefixes `&` and replaces characters
+      length_good  the length predicate                             length_fix  the truncation to name_length_target
+      conflicts_good  the scan over the siblings                    conflicts_fix  the recursive search for a free identifier
+      policy_check the classmethod of EdifNamespace that is_name_valid asks"""
+    en = P.cls(EN, "EdififyNames")
+    names = {"chars_good": "_characters_good", "chars_fix": "_characters_fix", "length_good": "_length_good", "length_fix": "_length_fix",
+             "conflicts_good": "_conflicts_good", "conflicts_fix": "_conflicts_fix"}
+    if role == "policy_check":
+        ec = P.cls("spydrnet/plugins/namespace_manager/edif_namespace.py", "EdifNamespace")
+        f = ec.methods.get("_check_" + "EDIF_identifier")
+        if f is None:
+            inv = ec.methods.get("is_name_valid")
+            called = [c.func.attr for c in walk_local(inv.node) if isinstance(c, ast.Call) and isinstance(c.func, ast.Attribute)
+                      and norm(c.func.value) in ("cls", "self", ec.name) and c.func.attr in ec.methods] if inv is not None else []
+            f = ec.methods[called[0]] if len(set(called)) == 1 else None
+        return f
+    f = en.methods.get(names[role])
+    if f is not None:
+        return f
+
+    def src(m):
+        return norm(m.node)
+    cands = [m for m in en.methods.values() if m.name.startswith("_") and not m.name.startswith("__")]
+
+    def returns_bool(m):
+        rs = [r for r in walk_local(m.node) if isinstance(r, ast.Return)]
+        return bool(rs) and all(r.value is not None and (isinstance(r.value, (ast.Compare, ast.BoolOp)) or (isinstance(r.value, ast.UnaryOp) and isinstance(r.value.op, ast.Not))
+                                                         or (isinstance(r.value, ast.Constant) and isinstance(r.value.value, bool))
+                                                         or (isinstance(r.value, ast.Call) and norm(r.value.func) in ("all", "any", "bool"))) for r in rs)
+
+    def recursive(m):
+        return any(isinstance(c, ast.Call) and isinstance(c.func, ast.Attribute) and c.func.attr == m.name for c in walk_local(m.node))
+    pick = {
+        "chars_good": lambda m: returns_bool(m) and "isalnum" in src(m) and len(m.params) == 2,
+        "chars_fix": lambda m: not returns_bool(m) and "isalnum" in src(m) and "'&'" in src(m),
+        "length_good": lambda m: returns_bool(m) and "name_length_target" in src(m) and "len(" in src(m),
+        "length_fix": lambda m: not returns_bool(m) and "name_length_target" in src(m) and any(isinstance(x, ast.Slice) for x in ast.walk(m.node)) and not recursive(m),
+        "conflicts_good": lambda m: returns_bool(m) and len(m.params) == 4 and ".lower()" in src(m),
+        "conflicts_fix": lambda m: recursive(m) and len(m.params) == 4,
+    }[role]
+    hit = [m for m in cands if pick(m)]
+    return hit[0] if len(hit) == 1 else None
+
+
 def _lengthens(v):
     """v builds a string out of other strings and literal text (concatenation, f-string, format, %): it can be longer than its parts"""
     from ..strings import template
@@ -195,9 +242,9 @@ def check_c17(ctx, R):
     P = ctx.P
     en = P.cls(EN, "EdififyNames")
     ec = P.cls(NS_EDIF, "EdifNamespace")
-    good = en.methods.get("_characters_good")
-    fix = en.methods.get("_characters_fix")
-    chk = ec.methods.get("_check_EDIF_identifier")
+    good = naming_role(P, "chars_good")
+    fix = naming_role(P, "chars_fix")
+    chk = naming_role(P, "policy_check")
     if None in (good, fix, chk):
         raise AnalysisError("anchor vanished: _characters_good / _characters_fix / _check_EDIF_identifier")
     R.rule("I1", "character-class inclusion: what the writer accepts or produces, the reader accepts")
@@ -346,7 +393,7 @@ def check_c17(ctx, R):
     for a in walk_local(init.node):
         if isinstance(a, ast.Assign) and norm(a.targets[0]) == "self.name_length_target" and isinstance(a.value, ast.Constant):
             tgt = a.value.value
-    lg = en.methods.get("_length_good")
+    lg = naming_role(P, "length_good")
     strict = any(isinstance(c, ast.Compare) and isinstance(c.ops[0], ast.Lt) and "name_length_target" in norm(c) for c in walk_local(lg.node))
     lte = any(isinstance(c, ast.Compare) and isinstance(c.ops[0], ast.LtE) and "name_length_target" in norm(c) for c in walk_local(lg.node))
     if tgt is None or not (strict or lte):
@@ -359,7 +406,7 @@ def check_c17(ctx, R):
         R.ok("I2", "writer bound %d <= reader bound %d (%d with &)" % (wmax, rmax_plain, rmax_amp), lg.loc())
     else:
         R.bad("I2", "%s|bound|%d>%d" % (lg.key, wmax, rmax_plain), lg.loc(), "the writer lets identifiers reach %d characters, the reader accepts at most %d" % (wmax, rmax_plain))
-    lf = en.methods.get("_length_fix")
+    lf = naming_role(P, "length_fix")
     slices = [norm(s) for s in walk_local(lf.node) if isinstance(s, ast.Subscript) and isinstance(s.slice, ast.Slice)]
     if any("name_length_target" in s for s in slices):
         R.ok("I2", "_length_fix truncates to the bound", lf.loc())
@@ -367,10 +414,12 @@ def check_c17(ctx, R):
         R.bad("I2", "%s|no-truncate" % lf.key, lf.loc(), "_length_fix no longer truncates to name_length_target")
     # after _length_fix the result must itself satisfy _length_good: slice end must be < target when the test is strict
     if strict and any(re.search(r"\[:\s*self\.name_length_target\s*\]", s) for s in slices):
-        R.bad("I2", "%s|off-by-one" % lf.key, lf.loc(),
+        # (keyed by the helper's role, not by the name it carries today: the finding is the same finding after a rename)
+        R.bad("I2", "%s:EdififyNames._length_fix|off-by-one" % EN, lf.loc(),
               "_length_fix truncates to name_length_target (%d) characters but _length_good requires fewer than that: the repaired identifier is still too long (%d > %d accepted by the reader without &)" % (tgt, tgt, rmax_plain))
-    cf = en.methods.get("_conflicts_fix")
-    cf = inlined_view(P, cf, keep=("_length_fix", "_length_good", "_characters_fix", "_characters_good", "_conflicts_good", "_conflicts_fix")) if cf is not None else None
+    cf = naming_role(P, "conflicts_fix")
+    kept_ = tuple(m_.name for m_ in (naming_role(P, r_) for r_ in ("length_fix", "length_good", "chars_fix", "chars_good", "conflicts_good", "conflicts_fix")) if m_ is not None)
+    cf = inlined_view(P, cf, keep=kept_) if cf is not None else None
     if cf is None:
         raise AnalysisError("anchor vanished: _conflicts_fix")
     cfg = cfg_of(cf.node)
@@ -380,13 +429,13 @@ def check_c17(ctx, R):
         if n.kind == "stmt" and isinstance(a, ast.Assign) and isinstance(a.targets[0], ast.Name):
             v = a.value
             name = a.targets[0].id
-            if isinstance(v, ast.Call) and norm(v.func) == "self._length_fix" and v.args and norm(v.args[0]) in st | {name}:
+            if isinstance(v, ast.Call) and norm(v.func) == "self." + lf.name and v.args and norm(v.args[0]) in st | {name}:
                 return st - {norm(v.args[0]), name}
             if _lengthens(v):
                 return st | {name}
             if isinstance(v, ast.Name) and v.id in st:
                 return st | {name}
-            if isinstance(v, ast.Call) and norm(v.func) == "self._conflicts_fix":
+            if isinstance(v, ast.Call) and norm(v.func) == "self." + cf.name:
                 if rec is not None:
                     for arg in v.args:
                         if norm(arg) in st:
@@ -413,14 +462,15 @@ def check_c17(ctx, R):
         R.ok("I2", "every lengthening path of _conflicts_fix re-applies _length_fix", cf.loc())
     mv = en.methods.get("make_valid")
     order = [norm(c.func).split(".")[-1] for a in mv.node.body if isinstance(a, ast.Assign) for c in [a.value] if isinstance(c, ast.Call)]
-    if order == ["_length_fix", "_characters_fix", "_conflicts_fix"]:
+    want_order = [m_.name if m_ is not None else "?" for m_ in (naming_role(P, "length_fix"), naming_role(P, "chars_fix"), naming_role(P, "conflicts_fix"))]
+    if order == want_order:
         R.ok("I2", "make_valid = length fix -> character fix -> conflict fix", mv.loc())
     else:
         R.bad("I2", "%s|pipeline" % mv.key, mv.loc(), "make_valid applies %s; the conflict test must see the final, legal spelling (length -> characters -> conflicts)" % order)
 
     # I3
     R.rule("I3", "case-folded conflict test over every sibling")
-    cg = en.methods.get("_conflicts_good")
+    cg = naming_role(P, "conflicts_good")
     if cg is None:
         raise AnalysisError("anchor vanished: _conflicts_good")
     caller_folds = any(isinstance(a, ast.Assign) and isinstance(a.value, ast.Call) and isinstance(a.value.func, ast.Attribute) and a.value.func.attr in ("lower", "casefold")
@@ -563,10 +613,46 @@ def _i4(ctx, R):
     for x, lp in stale_loop_uses(ed.node):
         R.bad("I4", "%s|stale %s" % (ed.key, x.id), ed.loc(x),
               "_edifify_netlist uses `%s` after the loop over `%s` has ended: elements are made unique against the siblings of the LAST container only, so identifiers collide elsewhere" % (x.id, short(lp.iter, 40)))
+    # which parameter of _add_rename_property is the element and which its siblings: read from what the helper hands to make_valid
+    # (not from positions — the signature may be reordered, made keyword-only or given a default)
+    arp = comp.methods.get("_add_rename_property")
+    roles = None
+    if arp is not None:
+        mv = next((x for x in walk_local(arp.node) if isinstance(x, ast.Call) and isinstance(x.func, ast.Attribute) and x.func.attr == "make_valid" and len(x.args) >= 2), None)
+        all_params = {x.arg for x in arp.node.args.posonlyargs + arp.node.args.args + arp.node.args.kwonlyargs}
+        if mv is not None and all(isinstance(a_, ast.Name) and a_.id in all_params for a_ in mv.args[:2]):
+            roles = (mv.args[0].id, mv.args[1].id)
+
+    def bound(c):
+        """{parameter: argument expression} of a call of _add_rename_property (defaults filled in)"""
+        a = arp.node.args
+        names = [x.arg for x in a.posonlyargs + a.args]
+        if arp.role == "method":
+            names = names[1:]  # (a static method has no self to skip)
+        m = dict(zip(names, c.args))
+        for k in c.keywords:
+            if k.arg:
+                m[k.arg] = k.value
+        for nm, d in zip(names[len(names) - len(a.defaults):], a.defaults):
+            m.setdefault(nm, d)
+        for x, d in zip(a.kwonlyargs, a.kw_defaults):
+            if d is not None:
+                m.setdefault(x.arg, d)
+        return m
     for c in walk_local(ed.node):
-        if isinstance(c, ast.Call) and norm(c.func) == "self._add_rename_property" and len(c.args) >= 2:
+        if isinstance(c, ast.Call) and norm(c.func) == "self._add_rename_property" and (len(c.args) + len(c.keywords)) >= 1:
+            if roles is not None:
+                m_ = bound(c)
+                if roles[0] not in m_ or roles[1] not in m_:
+                    continue
+                obj, ns = m_[roles[0]], m_[roles[1]]
+                if isinstance(ns, ast.Tuple) and not ns.elts:
+                    ns = ast.copy_location(ast.List(elts=[], ctx=ast.Load()), ns)
+            elif len(c.args) >= 2:
+                obj, ns = c.args[0], c.args[1]
+            else:
+                continue
             n += 1
-            obj, ns = c.args[0], c.args[1]
             if isinstance(ns, ast.Name):
                 # the sibling container held in a local bound just before the call (`siblings = netlist.libraries`)
                 d_ = reaching_assign(c, ns.id)
@@ -591,7 +677,7 @@ def _i4(ctx, R):
                       "`%s`: %s comes from `%s` but is made unique against `%s` — a different container, so it can collide with its real siblings" % (short(c, 60), norm(obj), norm(binder.iter), norm(ns)))
     R.count("identifier assignments (I4)", n)
     R.floor("identifier assignments (I4)", 6)
-    cg = en.methods.get("_conflicts_good")
+    cg = naming_role(P, "conflicts_good")
     # the identifier comparison may only be guarded by the presence test of that key
     for b in walk_local(cg.node):
         if isinstance(b, ast.BoolOp) and isinstance(b.op, ast.And) and any("'EDIF.identifier']" in norm(v) and isinstance(v, ast.Compare) and isinstance(v.ops[0], ast.Eq) for v in b.values):
